@@ -50,6 +50,8 @@ fn main() {
 		("C16", Some(c)) => checks::c16::replay(ctx.clone(), c),
 		("C18", None) => checks::c18::run(ctx.clone()),
 		("C18", Some(c)) => checks::c18::replay(ctx.clone(), c),
+		("C19", None) => checks::c19::run(ctx.clone()),
+		("C19", Some(c)) => checks::c19::replay(ctx.clone(), c),
 		("C20", None) => checks::c20::run(ctx.clone()),
 		("C20", Some(c)) => checks::c20::replay(ctx.clone(), c),
 		("C01", None) => checks::c01::run(ctx.clone()),
